@@ -2405,7 +2405,14 @@ class GColl(G):
                 body.append(("expr", ("assign", ("index", m, ("index", ("var", "kv"), N_(0))), N_(7))))
             return [("let", cnt, N_(0)), self.wrap_stmt(("for", "kv", m, body)), ("print", ("var", cnt)),
                     ("print", ("call", ("prop", m, "len"), []))]
-        if c < 96:
+        if c < 94:
+            # an iterator made before the map is written to: what it says about its length and what it yields agree
+            it = self.fresh("it")
+            return [("let", it, ("call", ("prop", m, "iter"), [])),
+                    self.wrap_stmt(("expr", ("assign", ("index", m, ("interp", ["late", ("call", ("prop", m, "len"), [])])), N_(1)))),
+                    self.wrap(("call", ("prop", ("var", it), "len"), [])),
+                    self.wrap(("call", ("prop", ("call", ("prop", ("var", it), "list"), []), "len"), []))]
+        if c < 97:
             # a literal with drawn keys: with a key written twice the later entry is the one that stays
             pairs = [(self.map_key(), self.elem()) for _ in range(self.i(1, 4))]
             return [("expr", ("assign", m, ("map", pairs)))] + self.map_probe()
